@@ -2,7 +2,7 @@
 // Debug formatting (every ASG type derives Debug; snapshot tests pin that format).
 use oq3_semantics::semantic_error::SemanticErrorList;
 use oq3_semantics::symbols::{SymbolId, SymbolType};
-use oq3_semantics::syntax_to_semantics::{parse_source_string, parse_source_string_with_path_search};
+use oq3_semantics::syntax_to_semantics::{parse_source_file, parse_source_file_with_search, parse_source_string, parse_source_string_with_path_search};
 use std::path::PathBuf;
 
 #[derive(Debug, Clone)]
@@ -30,30 +30,27 @@ fn collect_errors(l: &SemanticErrorList, out: &mut Vec<(String, u32, u32, String
     }
 }
 
-pub fn run_sema_with(text: &str, search: Option<&[PathBuf]>) -> SemaOut {
-    let r = std::panic::catch_unwind(std::panic::AssertUnwindSafe(|| {
-        let res = match search {
-            Some(s) => parse_source_string_with_path_search(text, None, Some(s)),
-            None => parse_source_string(text, None),
-        };
-        let nsyn = res.num_syntax_errors();
-        let any_syntax = res.any_syntax_errors();
-        let stmts: Vec<String> = res.program().stmts().iter().map(|s| format!("{s:?}")).collect();
-        let table = res.symbol_table();
-        let n = table.verif_num_symbols();
-        let mut symbols = Vec::new();
-        let mut id = SymbolId::new();
-        for _ in 0..n {
-            let cur = id.post_increment();
-            let sym = &table[&cur];
-            symbols.push((sym.name().to_string(), format!("{:?}", sym.symbol_type())));
-        }
-        let mut errors = Vec::new();
-        collect_errors(res.semantic_errors(), &mut errors);
-        let gates = table.gates().map(|(n, _, a, b)| (n.to_string(), a, b)).collect();
-        SemaOut { panic: None, syntax_errors: nsyn, any_syntax, stmts, symbols, errors, scope_depth: table.verif_scope_depth(), gates }
-    }));
-    match r {
+fn extract<T: oq3_source_file::SourceTrait>(res: &oq3_semantics::syntax_to_semantics::ParseResult<T>) -> SemaOut {
+    let nsyn = res.num_syntax_errors();
+    let any_syntax = res.any_syntax_errors();
+    let stmts: Vec<String> = res.program().stmts().iter().map(|s| format!("{s:?}")).collect();
+    let table = res.symbol_table();
+    let n = table.verif_num_symbols();
+    let mut symbols = Vec::new();
+    let mut id = SymbolId::new();
+    for _ in 0..n {
+        let cur = id.post_increment();
+        let sym = &table[&cur];
+        symbols.push((sym.name().to_string(), format!("{:?}", sym.symbol_type())));
+    }
+    let mut errors = Vec::new();
+    collect_errors(res.semantic_errors(), &mut errors);
+    let gates = table.gates().map(|(n, _, a, b)| (n.to_string(), a, b)).collect();
+    SemaOut { panic: None, syntax_errors: nsyn, any_syntax, stmts, symbols, errors, scope_depth: table.verif_scope_depth(), gates }
+}
+
+fn guarded(f: impl FnOnce() -> SemaOut) -> SemaOut {
+    match std::panic::catch_unwind(std::panic::AssertUnwindSafe(f)) {
         Ok(o) => o,
         Err(e) => {
             let msg = if let Some(s) = e.downcast_ref::<&str>() {
@@ -75,6 +72,44 @@ pub fn run_sema_with(text: &str, search: Option<&[PathBuf]>) -> SemaOut {
             }
         }
     }
+}
+
+pub fn run_sema_with(text: &str, search: Option<&[PathBuf]>) -> SemaOut {
+    guarded(|| {
+        let res = match search {
+            Some(s) => parse_source_string_with_path_search(text, None, Some(s)),
+            None => parse_source_string(text, None),
+        };
+        extract(&res)
+    })
+}
+
+/// the string entry point, followed by printing all diagnostics (standard output must be redirected by the caller)
+pub fn run_sema_print(text: &str, search: Option<&[PathBuf]>) -> SemaOut {
+    guarded(|| {
+        let res = match search {
+            Some(s) => parse_source_string_with_path_search(text, Some("fake.qasm"), Some(s)),
+            None => parse_source_string(text, Some("fake.qasm")),
+        };
+        res.print_errors();
+        extract(&res)
+    })
+}
+
+/// the file entry points: `parse_source_file_with_search` (search list given, or `with_search_none`) or
+/// `parse_source_file`; `print` also prints the diagnostics
+pub fn run_sema_file(path: &std::path::Path, search: Option<&[PathBuf]>, with_search_none: bool, print: bool) -> SemaOut {
+    guarded(|| {
+        let res = match search {
+            Some(s) => parse_source_file_with_search(path, Some(s)),
+            None if with_search_none => parse_source_file_with_search(path, None::<&[PathBuf]>),
+            None => parse_source_file(path),
+        };
+        if print {
+            res.print_errors();
+        }
+        extract(&res)
+    })
 }
 
 pub fn run_sema(text: &str) -> SemaOut {
